@@ -16,7 +16,7 @@ import os
 from harness.vlib.core import Ctx, ToolFailure
 from harness.c19 import tie
 
-MODEL_FILES = ["MypyVerif/Model/StubDefault.lean", "MypyVerif/Model/StubSig.lean", "MypyVerif/Model/StubImports.lean",
+MODEL_FILES = ["MypyVerif/Model/StubRet.lean", "MypyVerif/Model/StubDefault.lean", "MypyVerif/Model/StubSig.lean", "MypyVerif/Model/StubImports.lean",
                "MypyVerif/Proofs/StubDefault.lean", "MypyVerif/Proofs/StubSig.lean", "MypyVerif/Proofs/StubImports.lean"]
 
 
@@ -60,6 +60,7 @@ def main(ctx: Ctx) -> None:
     tie.tie_signatures(ctx)
     tie.tie_defaults(ctx)
     tie.tie_imports(ctx)
+    tie.tie_returns(ctx)
     if os.environ.get("C19_SKIP_SEARCH") != "1":
         from harness.c19 import search
         search.run(ctx)
